@@ -299,8 +299,22 @@ func (w *driveWorld) chooseDeletions() []int {
 		return []int{}
 	}
 	pick := map[int]bool{}
-	switch w.rng.Intn(8) {
+	switch w.rng.Intn(10) {
 	case 0: // nothing
+	case 8, 9: // all live leaves of one tree of the forest (its root becomes empty; later additions run over it)
+		var hs []uint
+		for h := uint(0); h < 64; h++ {
+			if w.n>>h&1 == 1 {
+				hs = append(hs, h)
+			}
+		}
+		h := hs[w.rng.Intn(len(hs))]
+		base := int((w.n >> (h + 1)) << (h + 1))
+		for s := base; s < base+(1<<h); s++ {
+			if w.live[s] {
+				pick[s] = true
+			}
+		}
 	case 1: // everything
 		for _, s := range lv {
 			pick[s] = true
